@@ -541,6 +541,17 @@ func (g *fnGen) block(list []ast.Stmt, k kctx) []string {
 				return []string{"gopanic"} // the statements after a panic are unreachable
 			}
 		}
+		switch libName(g.fi.pk, call) {
+		case "(*sync.Mutex).Lock", "(*sync.Mutex).Unlock", "(*sync.RWMutex).Lock", "(*sync.RWMutex).Unlock",
+			"(*sync.RWMutex).RLock", "(*sync.RWMutex).RUnlock":
+			// the translated code is sequential: a mutex operation is a no-op
+			return g.block(rest, k)
+		case "sync/atomic.AddInt32", "sync/atomic.AddInt64":
+			// atomic.AddIntNN(&x.f, d) is x.f += d
+			if lines, ok := g.atomicAdd(call); ok {
+				return append(lines, g.block(rest, k)...)
+			}
+		}
 		var p []binding
 		g.callStmt(call, &p, "_")
 		return append(emitPre(p, nil), g.block(rest, k)...)
@@ -609,8 +620,46 @@ func (g *fnGen) returnStmt(s *ast.ReturnStmt, k kctx) []string {
 	if len(s.Results) != sig.Results().Len() {
 		g.failf(s, "return with %d values in a function with %d results", len(s.Results), sig.Results().Len())
 	}
+	// return x, x.M(...) with x a pointer variable and M modifying its receiver:
+	// the call first (the other results see the record it leaves behind)
+	pre := map[int]string{}
+	for i, e := range s.Results {
+		call, ok := ast.Unparen(e).(*ast.CallExpr)
+		if !ok {
+			continue
+		}
+		c := g.t.calleeOf(g.fi.pk, call)
+		if c == nil || !c.mutates {
+			continue
+		}
+		sel := ast.Unparen(call.Fun).(*ast.SelectorExpr)
+		id, isId := ast.Unparen(sel.X).(*ast.Ident)
+		if !isId {
+			g.failf(s, "return of a receiver-modifying call on something that is not a variable")
+		}
+		if _, isPtr := types.Unalias(g.typeOf(sel.X)).(*types.Pointer); !isPtr {
+			g.failf(s, "return of a receiver-modifying call on a struct value")
+		}
+		for j, o := range s.Results {
+			if j == i {
+				continue
+			}
+			if oid, ok := ast.Unparen(o).(*ast.Ident); !ok || oid.Name != id.Name {
+				g.failf(s, "return of a receiver-modifying call next to something that is not its receiver")
+			}
+		}
+		tmp := g.fresh()
+		if !g.callStmt(call, &p, tmp) {
+			g.failf(s, "return of this call")
+		}
+		pre[i] = tmp
+	}
 	var vals []string
 	for i, e := range s.Results {
+		if v, ok := pre[i]; ok {
+			vals = append(vals, v)
+			continue
+		}
 		vals = append(vals, g.exprAs(e, sig.Results().At(i).Type(), &p))
 	}
 	return emitPre(p, k.ret(g.resultValue(vals)))
@@ -741,7 +790,8 @@ func (g *fnGen) switchStmt(s *ast.SwitchStmt, rest []ast.Stmt, k kctx) []string 
 // for cond { body; post } / for k[, v] := range x { body }
 func (g *fnGen) loop(node ast.Stmt, cond ast.Expr, post ast.Stmt, body *ast.BlockStmt, rng *ast.RangeStmt, rest []ast.Stmt, k kctx) []string {
 	g.loopN++
-	loopName := fmt.Sprintf("%s_loop%d", g.fi.name, g.loopN)
+	myN := g.loopN
+	loopName := fmt.Sprintf("%s_loop%d", g.fi.name, myN)
 	lo, hi := body.Pos(), body.End()
 	var condN, postN ast.Node
 	if cond != nil {
@@ -762,12 +812,12 @@ func (g *fnGen) loop(node ast.Stmt, cond ast.Expr, post ast.Stmt, body *ast.Bloc
 		}
 		var p []binding
 		x := g.expr(rng.X, &p)
-		rngSlice = fmt.Sprintf("rng_%d", g.loopN)
+		rngSlice = fmt.Sprintf("rng_%d", myN)
 		pre = emitPre(p, []string{"let " + rngSlice + " := " + x + " in"})
 		if id, ok := rng.Key.(*ast.Ident); ok && id.Name != "_" {
 			rngKey = coqIdent(id.Name)
 		} else {
-			rngKey = fmt.Sprintf("rng_%d_i", g.loopN)
+			rngKey = fmt.Sprintf("rng_%d_i", myN)
 		}
 		if rng.Value != nil {
 			if id, ok := rng.Value.(*ast.Ident); !ok {
@@ -786,7 +836,14 @@ func (g *fnGen) loop(node ast.Stmt, cond ast.Expr, post ast.Stmt, body *ast.Bloc
 	}
 	caps := g.captured(lo, hi, state, condN, postN, body)
 	if rng != nil {
-		caps = append(caps, svar{rngSlice, "gslice", rng.Pos()})
+		// the range variables are bound inside the body
+		var kept []svar
+		for _, c := range caps {
+			if c.name != rngKey && c.name != rngVal {
+				kept = append(kept, c)
+			}
+		}
+		caps = append(kept, svar{rngSlice, "gslice", rng.Pos()})
 	}
 	canFall := cond != nil || rng != nil || hasBreak(body)
 	rets := hasReturn(body)
@@ -864,7 +921,7 @@ func (g *fnGen) loop(node ast.Stmt, cond ast.Expr, post ast.Stmt, body *ast.Bloc
 	def.WriteString(strings.Join(bl, "\n") + "\n")
 	g.loopDefs = append(g.loopDefs, def.String())
 	// the loop itself
-	fuel, ok := g.t.fuel[fmt.Sprintf("%s#%d", g.fi.name, g.loopN)]
+	fuel, ok := g.t.fuel[fmt.Sprintf("%s#%d", g.fi.name, myN)]
 	if !ok {
 		fuel = g.defaultFuel(node, condN, postN, body, rngSlice)
 	}
@@ -948,7 +1005,7 @@ func (g *fnGen) defaultFuel(node ast.Node, cond, post ast.Node, body *ast.BlockS
 		})
 	}
 	if len(terms) == 0 {
-		g.failf(node, "cannot choose the fuel of this loop (no slice in sight); give --fuel %s#%d=...", g.fi.name, g.loopN)
+		g.failf(node, "cannot choose the fuel of this loop (no slice in sight); give --fuel %s#N=...", g.fi.name)
 	}
 	return "(Z.to_nat (" + strings.Join(terms, " + ") + ") + 2)%nat"
 }
@@ -1583,6 +1640,20 @@ func (g *fnGen) userCall(call *ast.CallExpr, c *fnInfo, p *[]binding) string {
 	return strings.Join(parts, " ")
 }
 
+// atomicAdd: atomic.AddIntNN(&lv, d) as the assignment lv = lv + d
+func (g *fnGen) atomicAdd(call *ast.CallExpr) ([]string, bool) {
+	u, ok := ast.Unparen(call.Args[0]).(*ast.UnaryExpr)
+	if !ok || u.Op != token.AND {
+		return nil, false
+	}
+	var p []binding
+	ty := g.typeOf(u.X)
+	a := g.expr(u.X, &p)
+	b := g.expr(call.Args[1], &p)
+	v := g.arith(call, token.ADD, a, b, ty, call.Args[1], &p)
+	return emitPre(p, g.assignTo(u.X, v)), true
+}
+
 // ifaceTerm: a call of an interface method that is a parameter of the translation
 func (g *fnGen) ifaceTerm(call *ast.CallExpr, p *[]binding) (string, int, bool) {
 	name, sig, recv, ok := g.t.ifaceCall(g.fi.pk, call)
@@ -1652,6 +1723,12 @@ func (g *fnGen) call(call *ast.CallExpr, p *[]binding) string {
 	if id, ok := ast.Unparen(call.Fun).(*ast.Ident); ok {
 		if _, isB := g.info.Uses[id].(*types.Builtin); isB {
 			switch id.Name {
+			case "new":
+				// new(S) for a translated struct: the zero record (pointers to structs are the records)
+				if n := g.t.structOf(g.typeOf(call)); n != nil {
+					return g.t.zeroOf(call, g.typeOf(call))
+				}
+				g.failf(call, "new(%s)", g.typeOf(call))
 			case "len", "cap":
 				ta := g.typeOf(call.Args[0])
 				if !isSliceType(ta) && !isStringType(ta) {
@@ -1703,6 +1780,11 @@ func (g *fnGen) call(call *ast.CallExpr, p *[]binding) string {
 		return tmp
 	}
 	n := libName(g.fi.pk, call)
+	if n == "sync/atomic.LoadInt32" || n == "sync/atomic.LoadInt64" {
+		if u, ok := ast.Unparen(call.Args[0]).(*ast.UnaryExpr); ok && u.Op == token.AND {
+			return g.expr(u.X, p) // sequential code: an atomic load is a read
+		}
+	}
 	if par, ok := g.t.libpar[n]; ok {
 		if len(call.Args) != 0 {
 			g.failf(call, "library parameter %s with arguments", n)
